@@ -108,6 +108,7 @@ func streamC11(c *Ctx) {
 		for i := 0; i < n; i += 10 {
 			lines := []J{opLine("createCollection", J{"coll": hx("r")})}
 			ids := []string{}
+			longArrs := [][]interface{}{}
 			for j := 0; j < 10; j++ {
 				m := map[string]interface{}{}
 				id := fixedId(i + j + 1)
@@ -115,6 +116,15 @@ func streamC11(c *Ctx) {
 				ids = append(ids, id)
 				for k := 0; k < 1+g.pick(4); k++ {
 					m[[]string{"a", "b", "t", "n", "arr", ""}[g.pick(6)]] = g.Value(depth)
+				}
+				if g.pick(3) == 0 {
+					// a long, unsorted array of scalars
+					la := []interface{}{}
+					for k := 0; k < 8+g.pick(5); k++ {
+						la = append(la, g.Atom())
+					}
+					m["long"] = la
+					longArrs = append(longArrs, la)
 				}
 				// always one time inside an array inside an object inside an array
 				m["deep"] = []interface{}{map[string]interface{}{"ts": []interface{}{boundaryTimes()[g.pick(10)], g.Atom()}}}
@@ -163,6 +173,15 @@ func streamC11(c *Ctx) {
 					lines = append(lines, opLine("findById", J{"coll": hx("r"), "id": hx(id)}))
 				}
 				lines = append(lines, opLine("findAll", J{"q": J{"coll": hx("r")}}))
+				// reads BY QUERY: evaluating criteria (element lookups in long arrays, comparisons with nested values),
+				// sorting and windowing must hand back the documents as they were written
+				for _, la := range longArrs {
+					lines = append(lines,
+						opLine("findAll", J{"q": J{"coll": hx("r"), "crit": J{"contains": []interface{}{hx("long"), []interface{}{J{"lit": encValue(la[0])}, J{"lit": encValue(la[5])}}}}}}),
+						opLine("findAll", J{"q": J{"coll": hx("r"), "crit": J{"in": []interface{}{hx("long"), []interface{}{J{"lit": encValue(la)}, J{"lit": encValue(la[1])}}}}, "sort": []interface{}{[]interface{}{hx("long"), 1}}}}),
+						opLine("forEach", J{"q": J{"coll": hx("r"), "crit": J{"cmp": []interface{}{"ge", hx("long"), J{"lit": encValue(la[:3])}}}}}))
+				}
+				lines = append(lines, opLine("findAll", J{"q": J{"coll": hx("r"), "sort": []interface{}{[]interface{}{hx("long"), -1}, []interface{}{hx("_id"), 1}}, "skip": 1}}))
 			}
 			reads()
 			// rewrites that keep every value's place in the order but not its type or zone (the same number as
@@ -245,14 +264,25 @@ func streamC17(c *Ctx) {
 		for cn := 0; cn < nColl; cn++ {
 			g := NewGen(c.Rng, dm)
 			h := NewHistGen(g, 1, 1)
-			lines := []J{opLine("createCollection", J{"coll": hx("i")}), opLine("createIndex", J{"coll": hx("i"), "field": hx("x")})}
+			// collection and field names of varying length: the index builds its keys from "c:<coll>;i:<field>;" (buffer
+			// sizes, allocator size classes); every third collection keeps the short names
+			collN, fieldN := "i", "x"
+			if cn%3 != 0 {
+				collN = strings.Repeat("c", 1+g.pick(45))
+				fieldN = "x" + strings.Repeat("f", g.pick(30))
+			}
+			lines := []J{opLine("createCollection", J{"coll": hx(collN)}), opLine("createIndex", J{"coll": hx(collN), "field": hx(fieldN)})}
 			nd := 4 + g.pick(20)
 			vals := map[string]interface{}{}
 			has := map[string]bool{}
 			docs := []interface{}{}
 			for j := 0; j < nd; j++ {
 				m := h.Doc(h.newId())
-				if v, ok := m["x"]; ok {
+				if v, ok := m["x"]; ok && fieldN != "x" {
+					delete(m, "x")
+					m[fieldN] = v
+				}
+				if v, ok := m[fieldN]; ok {
 					vals[m["_id"].(string)] = v
 					has[m["_id"].(string)] = true
 				} else {
@@ -260,7 +290,7 @@ func streamC17(c *Ctx) {
 				}
 				docs = append(docs, encDoc(m))
 			}
-			lines = append(lines, opLine("insert", J{"coll": hx("i"), "docs": docs}))
+			lines = append(lines, opLine("insert", J{"coll": hx(collN), "docs": docs}))
 			im.Reset()
 			dr.Ask(J{"k": "reset"})
 			for _, ln := range lines {
@@ -298,7 +328,7 @@ func streamC17(c *Ctx) {
 			if err != nil {
 				panic(err)
 			}
-			idx := index.CreateIndex("i", "x", index.SingleField, tx).(index.RangeIndex)
+			idx := index.CreateIndex(collN, fieldN, index.SingleField, tx).(index.RangeIndex)
 			scan := func(r *index.Range, rev bool, stop int) ([]string, error) {
 				out := []string{}
 				cb := func(id string) error {
@@ -363,7 +393,7 @@ func streamC17(c *Ctx) {
 						stop = 1 + g.pick(3)
 					}
 					got, err := scan(r, rev, stop)
-					line := J{"k": "scan", "coll": hx("i"), "field": hx("x"), "r": encRange(r), "rev": rev}
+					line := J{"k": "scan", "coll": hx(collN), "field": hx(fieldN), "r": encRange(r), "rev": rev}
 					if stop > 0 {
 						line["stopAfter"] = stop
 					}
@@ -441,7 +471,7 @@ func streamC17(c *Ctx) {
 					want = want[:stop]
 				}
 				if strings.Join(got, ",") != strings.Join(want, ",") {
-					c.Violation(&Replay{Backend: be, Stream: "scan", Case: append(toIfaces(lines), J{"k": "scan", "coll": hx("i"), "field": hx("x"), "rev": rev}), Expected: []string{strings.Join(want, ",")}, Actual: []string{strings.Join(got, ",")}, Note: "full index iteration does not yield every document once in order"})
+					c.Violation(&Replay{Backend: be, Stream: "scan", Case: append(toIfaces(lines), J{"k": "scan", "coll": hx(collN), "field": hx(fieldN), "rev": rev}), Expected: []string{strings.Join(want, ",")}, Actual: []string{strings.Join(got, ",")}, Note: "full index iteration does not yield every document once in order"})
 					tx.Rollback()
 					im.Destroy()
 					return
